@@ -104,7 +104,9 @@ def havoc_value(ip, v, name, elem=None):
     if isinstance(v, HByteArray):
         return HByteArray(sym_bytes(fresh(name, BYTES)))
     if isinstance(v, SymSet):
-        raise Unsupported(f'havoc of set {name}')
+        r = SymSet([])
+        r.unknown = True          # contents after the loop are not tracked
+        return r
     if isinstance(v, tuple):
         return tuple(havoc_value(ip, x, f'{name}{i}') for i, x in enumerate(v))
     if isinstance(v, (HObj, HDict, Opaque)):
